@@ -10,6 +10,10 @@ CHECKS = {
   text='Exhaustive enumeration of every phase sequence of length <= 6 (quick) / <= 8 (thorough) over a 5-value alphabet (every placement of wraps, first and last sample included) plus Hypothesis-generated long and short phases, compared against wrap positions recomputed independently. Exploration: a pass is exhaustive on the enumerated sub-domain and sampled elsewhere.',
   note='Trusts numpy; wrap definition taken from the docstring (|diff| > phase_step).',
   technique='exhaustive enumeration + property-based testing against a reference partition model'),
+ 'C13': dict(
+  text='Exhaustive enumeration of all phase sequences of length <= 6/8 over the 5-value alphabet x four phase_edge values, plus Hypothesis-generated phases with random and block boolean masks, single segments fed to is_good, and cycle containers (cache on and off); each wrap-delimited segment must be labelled iff it meets the documented criteria (three-valued oracle: exact boundary values are do-not-care).',
+  note='Boundary equalities (p[0] in {0, edge}, p[-1] in {2pi-edge, 2pi}) are not decided because docstring (strict) and code (inclusive) differ; boolean vector masks only.',
+  technique='exhaustive enumeration + property-based testing against a three-valued reference predicate'),
 }
 
 NOT_APPLICABLE = [{'property_id': p, 'reason': 'check not built yet in this round (planned with the same technique, see DESIGN.md section 2)'}
